@@ -225,6 +225,48 @@ Theorem C19_gen_plugin_events :
 Proof. exact gen_sim_plugin_events. Qed.
 Print Assumptions C19_gen_plugin_events.
 
+(* BlockBroadcaster.run: one tick takes the next block number; past the limit the run ends, otherwise the block is broadcast *)
+Theorem C19_gen_broadcaster_run :
+  forall c,
+  g_sim_bb_run = ([1; 2], Fall) /\
+  g_sim_bb_run_body true c = (if 0 <? c then ([1; 2; 4], Fall) else ([1; 3; 4], Fall)) /\
+  g_sim_bb_run_body false c = ([5], RetU).
+Proof. exact gen_sim_bb_run. Qed.
+Print Assumptions C19_gen_broadcaster_run.
+
+(* BlockBroadcaster.broadcast: every loader fills the block, every subscription gets it on a goroutine of its own, which always sends *)
+Theorem C19_gen_broadcaster_fanout :
+  forall p d m,
+  In 1 (fst (g_sim_bb_broadcast p)) /\ In 4 (fst (g_sim_bb_broadcast p)) /\
+  g_sim_bb_loaders_body = ([1], Fall) /\ g_sim_bb_subs_body = ([1], Fall) /\
+  last (fst (g_sim_bb_deliver d m)) 0 = 2 /\ snd (g_sim_bb_deliver d m) = Fall.
+Proof. exact gen_sim_bb_broadcast. Qed.
+Print Assumptions C19_gen_broadcaster_fanout.
+
+(* BlockBroadcaster.unsubscribe *)
+Theorem C19_gen_broadcaster_unsubscribe :
+  forall k c,
+  g_sim_bb_unsubscribe k c = if k then (if c then ([1; 2; 3; 4], Fall) else ([1; 3; 4], Fall)) else ([3; 4], Fall).
+Proof. exact gen_sim_bb_unsubscribe. Qed.
+Print Assumptions C19_gen_broadcaster_unsubscribe.
+
+(* Listener.run: a block is saved, always sent to the block channel, and each transaction to the channel of its kind *)
+Theorem C19_gen_listener_run :
+  forall l c p u,
+  g_sim_listener_run_body true = ([1; 2; 3], Fall) /\ g_sim_listener_run_body false = ([], RetU) /\
+  last (fst (g_sim_listener_tx_body l c p u)) 0 = 5 /\
+  g_sim_listener_tx_body false false true u = ([3; 5], Fall).
+Proof. exact gen_sim_listener. Qed.
+Print Assumptions C19_gen_listener_run.
+
+(* Listener: an event reaches every subscriber of its channel; subscribing appends to every named channel's list *)
+Theorem C19_gen_listener_fanout :
+  forall s,
+  g_sim_listener_broadcast true = ([1], Fall) /\ g_sim_listener_broadcast false = ([], Fall) /\
+  g_sim_listener_broadcast_body = ([1], Fall) /\ last (fst (g_sim_listener_subscribe_body s)) 0 = 2.
+Proof. exact gen_sim_listener_fanout. Qed.
+Print Assumptions C19_gen_listener_fanout.
+
 End GenTie.
 
 (* Non-vacuity: a range crossing a power of ten, received out of order with a repeat, gives the
